@@ -14,6 +14,11 @@
 //!   u.parse_prefix / i.parse_prefix S     from_str_with_radix_prefix -> hex d:radix | err Kind
 //!   u.parse_default / i.parse_default S d:radix   from_str_with_radix_default
 //!   u.rt / i.rt N d:radix                 parse(print) round trip, both letter cases -> true | false
+//!   u.dbg / i.dbg FL W N                  `{:?}` (Debug, `DoubleEnd` of fmt/mod.rs + non_power_two.rs): FL = - | + | # | +# ;
+//!        W = none | d:<width> (the width is accepted by format! and ignored by the implementation) -> s:bytes
+//!   t.fastdiv d:W D A                     num_modular::PreMulInv1by1::<uW>::new(D).div_rem(A, D), W = 8|16|32|64 (dashu's
+//!        radix::FastDivideSmall is this type at the word size) -> <m hex> d:<shift> <q hex> <r hex>   (m, shift: the private
+//!        fields, read from the derived Debug text)
 //!   u.le u.be i.le i.be N                 to_{le,be}_bytes -> s:bytes
 //!   u.from_le u.from_be i.from_le i.from_be S -> hex
 //!   u.chunks N d:k                        to_chunks -> d:count c0 c1 …
@@ -272,6 +277,65 @@ fn ibig_fmt(args: &[&str]) -> Res {
     merge(&names, rs)
 }
 
+/// `{:?}` with the flags `+`/`#` and an optional width (C07: the `DoubleEnd` printer)
+fn dbg_fmt<T: std::fmt::Debug>(v: &T, fl: &str, w: Option<usize>) -> Result<String, String> {
+    Ok(match (fl, w) {
+        ("-", None) => format!("{:?}", v),
+        ("+", None) => format!("{:+?}", v),
+        ("#", None) => format!("{:#?}", v),
+        ("+#", None) => format!("{:+#?}", v),
+        ("-", Some(w)) => format!("{:w$?}", v, w = w),
+        ("+", Some(w)) => format!("{:+w$?}", v, w = w),
+        ("#", Some(w)) => format!("{:#w$?}", v, w = w),
+        ("+#", Some(w)) => format!("{:+#w$?}", v, w = w),
+        _ => return Err(format!("bad-arg flags {}", fl)),
+    })
+}
+
+fn dbg_args<'a>(args: &'a [&'a str]) -> Result<(&'a str, Option<usize>), String> {
+    let fl = arg(args, 0)?;
+    if !["-", "+", "#", "+#"].contains(&fl) {
+        return Err(format!("bad-arg flags {}", fl));
+    }
+    let w = match arg(args, 1)? {
+        "none" => None,
+        s => Some(p_usize(s)?),
+    };
+    Ok((fl, w))
+}
+
+/// `radix::FastDivideSmall = num_modular::PreMulInv1by1<Word>` driven directly, at every word size it exists for
+fn fastdiv(args: &[&str]) -> Res {
+    let w = p_usize(arg(args, 0)?)?;
+    let d = u64::try_from(&p_ubig(arg(args, 1)?)?).map_err(|_| "bad-arg d".to_string())?;
+    let a = u64::try_from(&p_ubig(arg(args, 2)?)?).map_err(|_| "bad-arg a".to_string())?;
+    macro_rules! go {
+        ($T:ty) => {{
+            let d = <$T>::try_from(d).map_err(|_| "bad-arg d".to_string())?;
+            let a = <$T>::try_from(a).map_err(|_| "bad-arg a".to_string())?;
+            run1t(move || {
+                let p = num_modular::PreMulInv1by1::<$T>::new(d);
+                let (q, r) = p.div_rem(a, d);
+                let dbg = format!("{:?}", p);
+                let num = |key: &str| -> String {
+                    let i = dbg.find(key).expect("Debug text of PreMulInv1by1") + key.len();
+                    dbg[i..].trim_start().chars().take_while(|c| c.is_ascii_digit()).collect::<String>()
+                };
+                let m: u64 = num("m:").parse().unwrap();
+                format!("{:x} d:{} {:x} {:x}", m, num("shift:"), q, r)
+            })
+        }};
+    }
+    let r = match w {
+        8 => go!(u8),
+        16 => go!(u16),
+        32 => go!(u32),
+        64 => go!(u64),
+        _ => return Err("bad-arg W".into()),
+    };
+    merge(&["div_rem"], vec![r])
+}
+
 // ------------------------------------------------------------------ parsing
 
 fn perr(e: ParseError) -> String {
@@ -331,6 +395,17 @@ pub fn dispatch(op: &str, args: &[&str]) -> Option<Res> {
         match op {
             "u.fmt" => ubig_fmt(args),
             "i.fmt" => ibig_fmt(args),
+            "t.fastdiv" => fastdiv(args),
+            "u.dbg" => {
+                let (fl, w) = dbg_args(args)?;
+                let v = p_ubig(arg(args, 2)?)?;
+                merge(&["debug"], vec![run1t(|| fs(dbg_fmt(&v, fl, w).unwrap()))])
+            }
+            "i.dbg" => {
+                let (fl, w) = dbg_args(args)?;
+                let v = p_ibig(arg(args, 2)?)?;
+                merge(&["debug"], vec![run1t(|| fs(dbg_fmt(&v, fl, w).unwrap()))])
+            }
             // ---------------------------------------------------------------- parse
             "u.parse" => {
                 let s = p_str(arg(args, 0)?)?;
@@ -960,6 +1035,69 @@ fn from_float<R: Round>(bits: u64, is64: bool) -> Res {
     merge_parse(&["FBig"], vec![a])
 }
 
+// ---- infinities (C08): every formatting trait prints `inf` / `-inf` and ignores width, precision and flags
+fn inf_val<R: Round, const B: Word>(neg: bool) -> FBig<R, B> {
+    if neg {
+        FBig::<R, B>::NEG_INFINITY
+    } else {
+        FBig::<R, B>::INFINITY
+    }
+}
+
+/// `f.fmtinf <kind> <prec> <width> <flags> d:<base> <+|-> <mode>`
+fn inf_args(args: &[&str]) -> Result<(String, Option<usize>, Option<usize>, String, bool), String> {
+    let neg = match arg(args, 5)? {
+        "-" => true,
+        "+" => false,
+        s => return Err(format!("bad-arg sign {}", s)),
+    };
+    Ok((arg(args, 0)?.to_string(), opt_usize(arg(args, 1)?)?, opt_usize(arg(args, 2)?)?, arg(args, 3)?.to_string(), neg))
+}
+
+fn frun_inf<R: Round, const B: Word>(args: &[&str]) -> Res {
+    let (kind, p, w, fl, neg) = inf_args(args)?;
+    let a = inf_val::<R, B>(neg);
+    let kind = kind.as_str();
+    match kind {
+        "rdbg" => merge(&["fmt"], vec![run1t(|| fs(format!("{:?}", a.repr())))]),
+        "rdbga" => merge(&["fmt"], vec![run1t(|| fs(format!("{:#?}", a.repr())))]),
+        "disp" | "lexp" | "uexp" => {
+            // FBig and Repr (Repr formats with mode Zero: no rounding is involved for an infinity) must print the same
+            let r = a.repr().clone();
+            merge(&["FBig", "Repr"], vec![run1t(|| fs(ffmt(&a, kind, p, w, &fl).unwrap())), run1t(|| fs(ffmt(&r, kind, p, w, &fl).unwrap()))])
+        }
+        _ => merge(&["fmt"], vec![run1t(|| fs(ffmt(&a, kind, p, w, &fl).unwrap()))]),
+    }
+}
+fn frun_inf_bin<R: Round, const B: Word>(args: &[&str]) -> Res
+where
+    FBig<R, B>: core::fmt::Binary,
+{
+    let (_k, p, w, fl, neg) = inf_args(args)?;
+    let a = inf_val::<R, B>(neg);
+    merge(&["fmt"], vec![run1t(|| fs(ffmt_bin(&a, p, w, &fl).unwrap()))])
+}
+fn frun_inf_oct<R: Round, const B: Word>(args: &[&str]) -> Res
+where
+    FBig<R, B>: core::fmt::Octal,
+{
+    let (_k, p, w, fl, neg) = inf_args(args)?;
+    let a = inf_val::<R, B>(neg);
+    merge(&["fmt"], vec![run1t(|| fs(ffmt_oct(&a, p, w, &fl).unwrap()))])
+}
+fn frun_inf_hex<R: Round, const B: Word>(args: &[&str]) -> Res
+where
+    FBig<R, B>: core::fmt::LowerHex + core::fmt::UpperHex,
+{
+    let (k, p, w, fl, neg) = inf_args(args)?;
+    let a = inf_val::<R, B>(neg);
+    if k == "lhex" {
+        merge(&["fmt"], vec![run1t(|| fs(ffmt_lhex(&a, p, w, &fl).unwrap()))])
+    } else {
+        merge(&["fmt"], vec![run1t(|| fs(ffmt_uhex(&a, p, w, &fl).unwrap()))])
+    }
+}
+
 pub fn dispatch_float(op: &str, args: &[&str]) -> Option<Res> {
     if !op.starts_with("f.") {
         return None;
@@ -981,6 +1119,18 @@ pub fn dispatch_float(op: &str, args: &[&str]) -> Option<Res> {
                     ("lhex", 16) | ("uhex", 16) => fmode_table!(frun_hex, 16, a.mode, op, args),
                     ("bin", _) | ("oct", _) | ("lhex", _) | ("uhex", _) => Err("bad-arg trait not implemented for the base".to_string()),
                     _ => fbase_table!(frun, a.base, a.mode, op, args),
+                }
+            }
+            "f.fmtinf" => {
+                let base = p_usize(arg(args, 4)?)? as u64;
+                let mode = arg(args, 6)?.chars().next().ok_or("bad-arg mode")?;
+                match (arg(args, 0)?, base) {
+                    ("bin", 2) => fmode_table!(frun_inf_bin, 2, mode, args),
+                    ("oct", 8) => fmode_table!(frun_inf_oct, 8, mode, args),
+                    ("lhex", 2) | ("uhex", 2) => fmode_table!(frun_inf_hex, 2, mode, args),
+                    ("lhex", 16) | ("uhex", 16) => fmode_table!(frun_inf_hex, 16, mode, args),
+                    ("bin", _) | ("oct", _) | ("lhex", _) | ("uhex", _) => Err("bad-arg trait not implemented for the base".to_string()),
+                    _ => fbase_table!(frun_inf, base, mode, args),
                 }
             }
             "f.rt" | "f.with_precision" => {
